@@ -95,6 +95,7 @@ func checkMain(args []string) {
 	prop := fs.String("property", "", "property id")
 	tier := fs.String("tier", "", "quick or thorough")
 	stubsDir := fs.String("stubs", "", "stub directory (default <verif>/stubs)")
+	writeExpected := fs.Bool("write-expected", false, "write expected/<property>.obl from this run")
 	fs.Parse(args)
 	if *prop == "" {
 		fmt.Fprintln(os.Stderr, "check: -property required")
@@ -257,6 +258,23 @@ func checkMain(args []string) {
 			discharged++
 			backends["structural"]++
 		}
+	}
+	if *writeExpected {
+		var pin []string
+		seen := map[string]bool{}
+		for _, o := range obls {
+			if o.Cover || len(o.Tags) == 0 || seen[o.Name] {
+				continue
+			}
+			seen[o.Name] = true
+			pin = append(pin, o.Name)
+		}
+		for _, r := range structs {
+			pin = append(pin, r.Name)
+		}
+		sort.Strings(pin)
+		os.MkdirAll(filepath.Join(*verif, "expected"), 0755)
+		os.WriteFile(filepath.Join(*verif, "expected", *prop+".obl"), []byte("# pinned obligations of "+*prop+": a run that does not generate one of these fails\n"+strings.Join(pin, "\n")+"\n"), 0644)
 	}
 	// pinned obligations
 	var missing []string
